@@ -18,18 +18,25 @@ def _filled(fill, i, j, n):
 
 def build(cfg, sels, seed=0):
     xcols = [f"x{j + 1}" for j in range(cfg["xc"])]
-    ccols = ["list_name", "name", "label"] + xcols
+    style = cfg.get("style", "plain")
+    itext = "itext" in style
+    # concrete list names: a dot in a list name is legal (only a recognised file extension makes a select read from a file)
+    LN = {"L": "L.v2", "M": "M.x", "U": "U.1"} if "dotted" in style else {"L": "L", "M": "M", "U": "U"}
+    ccols = ["list_name", "name", "label"] + (["label::French (fr)"] if itext else []) + xcols
     lists = {}
-    for lst, n in (("L", cfg["nl"]), ("M", cfg["nm"]), ("U", cfg["nu"])):
+    for key, n in (("L", cfg["nl"]), ("M", cfg["nm"]), ("U", cfg["nu"])):
+        lst = LN[key]
         rows = []
         for i in range(n):
-            nm = f"{lst.lower()}{i + 1}"
-            if cfg["dup"] and lst == "L" and i == 1:
+            nm = f"{key.lower()}{i + 1}"
+            if cfg["dup"] and lst == LN["L"] and i == 1:
                 nm = "l1"
             own = cfg.get("own", "none")
-            if lst == "M" and ((own == "mid" and i == 0) or (own == "last" and i == n - 1)):
+            if lst == LN["M"] and ((own == "mid" and i == 0) or (own == "last" and i == n - 1)):
                 nm = "other"
             r = {"list_name": lst, "name": nm, "label": f"{lst} label {i + 1}"}
+            if itext:
+                r["label::French (fr)"] = f"{lst} etiquette {i + 1}"
             for j, c in enumerate(xcols):
                 if _filled(cfg["fill"], i, j, n):
                     r[c] = f"{lst}{i + 1}{c}"
@@ -65,34 +72,34 @@ def build(cfg, sels, seed=0):
     for k, v in enumerate(sels, start=1):
         nm = f"s{k}"
         row = {"name": nm, "label": f"S{k}"}
-        s = {"path": prefix + [nm], "kind": "itemset", "inst": "L", "filter": "", "wrap": "none", "seed": "", "vref": "name", "lref": "label", "items": []}
+        s = {"path": prefix + [nm], "kind": "itemset", "inst": LN["L"], "filter": "", "wrap": "none", "seed": "", "vref": "name", "lref": "label", "items": []}
         if v == "one":
-            row["type"] = "select_one L"
+            row["type"] = f"select_one {LN['L']}"
         elif v == "multi":
-            row["type"] = "select_multiple L"
+            row["type"] = f"select_multiple {LN['L']}"
         elif v == "rank":
-            row["type"] = "rank L"
+            row["type"] = f"rank {LN['L']}"
         elif v == "oneM":
-            row["type"] = "select_one M"
-            s["inst"] = "M"
+            row["type"] = f"select_one {LN['M']}"
+            s["inst"] = LN["M"]
         elif v == "other":
-            row["type"] = "select_one M or_other"
-            s["inst"] = "M"
-            others.append({"path": prefix + [nm], "list": "M"})
+            row["type"] = f"select_one {LN['M']} or_other"
+            s["inst"] = LN["M"]
+            others.append({"path": prefix + [nm], "list": LN["M"]})
         elif v == "filter":
-            row.update(type="select_one L", choice_filter=FILTER)
+            row.update(type=f"select_one {LN['L']}", choice_filter=FILTER)
             s["filter"] = norm_src_expr(FILTER)
         elif v == "rand":
-            row.update(type="select_multiple L", parameters="randomize=true")
+            row.update(type=f"select_multiple {LN['L']}", parameters="randomize=true")
             s["wrap"] = "rand"
         elif v == "randseed":
-            row.update(type="select_one L", parameters="randomize=true seed=42")
+            row.update(type=f"select_one {LN['L']}", parameters="randomize=true seed=42")
             s.update(wrap="rand", seed="42")
         elif v == "randseedref":
-            row.update(type="select_one L", parameters="randomize=true seed=${sd}")
+            row.update(type=f"select_one {LN['L']}", parameters="randomize=true seed=${sd}")
             s.update(wrap="rand", seed="${}")
         elif v == "filter_rand":
-            row.update(type="rank L", parameters="randomize=true seed=7", choice_filter=FILTER)
+            row.update(type=f"rank {LN['L']}", parameters="randomize=true seed=7", choice_filter=FILTER)
             s.update(wrap="rand", seed="7", filter=norm_src_expr(FILTER))
         elif v == "csv":
             row["type"] = "select_one_from_file cf.csv"
@@ -133,11 +140,13 @@ def build(cfg, sels, seed=0):
             row["type"] = "select_one ${rq}"
             s.update(kind="repeat", inst="rp", vref="rq", lref="rq")
         elif v == "search":
-            row.update(type="select_one M", appearance="search('mfile')")
-            s.update(kind="inline", inst="M", items=[[r["name"], r["label"]] for r in lists["M"]])
-            search_lists.add("M")
+            row.update(type=f"select_one {LN['M']}", appearance="search('mfile')")
+            s.update(kind="inline", inst=LN["M"], items=[[r["name"], r["label"]] for r in lists[LN["M"]]])
+            search_lists.add(LN["M"])
         else:
             raise ValueError(v)
+        if itext and s["kind"] == "itemset" and s["inst"] in (LN["L"], LN["M"]):
+            s["lref"] = "jr:itext(itextId)"       # a translated list is read through itext
         survey.append(row)
         src_sel.append(s)
     if cfg["depth"] >= 2:
